@@ -354,6 +354,24 @@ func genE2ELifecycle(r *Rng, free bool) *E2ECase {
 			ec.Ops = append(ec.Ops, genQueries(r, all, 2, ec.Stream)...)
 		case x < 68:
 			ec.Ops = append(ec.Ops, E2EOp{K: "describe"}, E2EOp{K: "serve"}, E2EOp{K: "selagain"})
+		case x < 80 && !free:
+			// the index files are lost and the next thing is a WRITE: the info it creates is marked partial (reported with an
+			// unlimited time range); a clean restart inside that window must save the mark and arm the rebuild again
+			ec.Ops = append(ec.Ops, E2EOp{K: "drop", Keep: r.Chance(1, 2)})
+			w := tsProcess(r, "mono", r.PickInt(1, 10, 251), &cur)
+			ec.Ops = append(ec.Ops, E2EOp{K: "batch", Ts: w})
+			all = append(all, w...)
+			old := all[r.Intn(len(all)-len(w)+1)]
+			ec.Ops = append(ec.Ops, E2EOp{K: "read", O1: i64p(old), O2: i64p(old + int64(r.PickInt(0, 5, 300)))})
+			if r.Chance(2, 3) {
+				ec.Ops = append(ec.Ops, E2EOp{K: "restart"}, E2EOp{K: "read", O1: i64p(old), O2: i64p(old)})
+				w2 := tsProcess(r, "mono", r.PickInt(1, 10, 251), &cur)
+				ec.Ops = append(ec.Ops, E2EOp{K: "batch", Ts: w2})
+				all = append(all, w2...)
+			}
+			ec.Ops = append(ec.Ops, genQueries(r, all, 2, ec.Stream)...)
+			ec.Ops = append(ec.Ops, E2EOp{K: "serve"})
+			ec.Ops = append(ec.Ops, genQueries(r, all, 1, ec.Stream)...)
 		}
 	}
 	ec.Ops = append(ec.Ops, genQueries(r, all, r.Range(6, 10), ec.Stream)...)
@@ -542,6 +560,14 @@ func corpus() []Replay {
 			{K: "read", O1: i64p(ts[120]), O2: i64p(ts[130])}, {K: "read", O1: i64p(ts[49]), O2: i64p(ts[50])}, {K: "read", O2: i64p(ts[610])},
 			{K: "drop"}, {K: "read", O1: i64p(ts[10]), O2: i64p(ts[640])}, {K: "read", O1: i64p(ts[10]), O2: i64p(ts[640])}}}})
 	}
+	// (o) the repaired (f) with a clean restart inside the window: 300 x 100, index files lost, the first operation is a
+	// write of 10 x 200 (the info it creates is marked partial: RANGE ["100":"150"] has 300 events at once), clean restart
+	// (the mark is saved, the loaded info is corrupted again), another write (asks for the rebuild), the rebuilder runs
+	out = append(out, Replay{Kind: "e2e", E2E: &E2ECase{Stream: "lifecycle", Ops: []E2EOp{
+		{K: "batch", Ts: rep(100, 300)}, {K: "drop"}, {K: "batch", Ts: rep(200, 10)}, {K: "read", O1: i64p(100), O2: i64p(150)},
+		{K: "restart"}, {K: "read", O1: i64p(100), O2: i64p(150)}, {K: "batch", Ts: rep(300, 10)},
+		{K: "read", O1: i64p(100), O2: i64p(150)}, {K: "read", O1: i64p(200), O2: i64p(300)}, {K: "sync"}, {K: "read", O1: i64p(50), O2: i64p(1000)},
+		{K: "serve"}, {K: "read", O1: i64p(100), O2: i64p(150)}, {K: "read", O1: i64p(150), O2: i64p(250)}}}})
 	// (n) a RANGE query over two partitions (cursor.newCursor mixes one range iterator per partition)
 	{
 		var a, b []int64
@@ -828,10 +854,9 @@ func runE2E(rp Replay) (*Case, error) {
 	}
 	var hist []string
 	var viol *Violation
-	// the first failure of the case is reported, except that one of the two recorded classes gives way to any other
-	// failure later in the same case
-	recorded := map[string]bool{"range-incomplete-non-monotone-timestamps": true, "range-incomplete-write-after-index-loss-before-rebuild": true,
-		"range-incomplete-stale-index-root-after-index-file-loss": true}
+	// the first failure of the case is reported, except that the recorded class gives way to any other failure later
+	// in the same case
+	recorded := map[string]bool{"range-incomplete-non-monotone-timestamps": true}
 	fail := func(class, detail string) {
 		if viol == nil || (recorded[viol.Class] && !recorded[class]) {
 			viol = &Violation{Class: class, Detail: detail}
@@ -846,6 +871,7 @@ func runE2E(rp Replay) (*Case, error) {
 	pendingDropWrite := false
 	kStopped := false               // the correspondence part of the case has ended (E2EOp.Lose)
 	staleRoots := false             // the index files were cut short or zeroed while cindex.dat kept its roots into them
+	restartInWindow := false        // a clean restart happened while such a chunk was waiting for its rebuild
 	pendingChunks := map[int]bool{} // the chunks (ordinals) written to between an index loss and the next sync
 	syncedSinceDrop := true
 	// chunks (by ordinal) whose index was built by the rebuilder scanning the chunk and that were not written to since
@@ -1084,6 +1110,10 @@ func runE2E(rp Replay) (*Case, error) {
 				return nil, fmt.Errorf("restart: %v", err)
 			}
 			tags = append(tags, "e2e-clean-restart")
+			if len(pendingChunks) > 0 {
+				restartInWindow = true
+				tags = append(tags, "e2e-restart-inside-index-loss-window")
+			}
 			gop = "ERestart"
 		case "describe":
 			if e.src == "" {
@@ -1217,7 +1247,7 @@ func runE2E(rp Replay) (*Case, error) {
 			// getPosBackward / checkPosOrReduce over the same windows): the last k in-range events, in stored order. Only
 			// the oracle judges it (backward iteration is modelled by C16); on a partition in time order whose forward read
 			// was complete.
-			if len(missing) == 0 && unsound == "" && sortedAll && !pendingDropWrite && !staleRoots && len(want) > 0 && nreads%3 == 0 {
+			if len(missing) == 0 && unsound == "" && sortedAll && len(want) > 0 && nreads%3 == 0 {
 				k := len(want)
 				if k > 7 {
 					k = 7
@@ -1313,7 +1343,12 @@ func runE2E(rp Replay) (*Case, error) {
 					cls = "range-incomplete-stale-index-root-after-index-file-loss"
 				case !sortedAll:
 					cls = "range-incomplete-non-monotone-timestamps"
+				case pendingDropWrite && restartInWindow:
+					// (repaired) the same made permanent by a clean restart before the rebuilder has served the chunk: the
+					// mark "hull partial" must be saved and re-armed
+					cls = "range-incomplete-restart-inside-index-loss-window"
 				case pendingDropWrite:
+					// (repaired) the info a write creates for a chunk the index did not know has the hull of that batch only
 					cls = "range-incomplete-write-after-index-loss-before-rebuild"
 				case lostServedUnflushed:
 					// the transient of the recorded class above ends when the rebuilder has served the chunk, also when its
@@ -1328,11 +1363,11 @@ func runE2E(rp Replay) (*Case, error) {
 				case allT1 && lostPrefix:
 					cls = "range-incomplete-lower-bound-equal-ts-run"
 				}
-				// The two recorded classes are about a hull or an index that does not bound the chunk's timestamps (index
-				// points taken from write notifications, hull from the first/last record or from one batch). They do not
+				// The recorded class is about a hull or an index that does not bound the chunk's timestamps (index points
+				// taken from write notifications, hull from the first/last record). It does not
 				// explain events lost from a chunk whose index the rebuilder has just built by scanning it, nor from a
 				// chunk whose hull and index, as the TsIndexer reports them now, do bound its timestamps.
-				if cls == "range-incomplete-non-monotone-timestamps" || cls == "range-incomplete-write-after-index-loss-before-rebuild" {
+				if cls == "range-incomplete-non-monotone-timestamps" {
 					st := make([]int, len(e.cnts)+1)
 					for k, c := range e.cnts {
 						st[k+1] = st[k] + c
@@ -1436,7 +1471,7 @@ func runE2E(rp Replay) (*Case, error) {
 					}
 				}
 			}
-			if sortedAll && !pendingDropWrite && !staleRoots {
+			if sortedAll {
 				for k, ts := range e.all {
 					check(k, ts)
 				}
@@ -1477,7 +1512,7 @@ func runE2E(rp Replay) (*Case, error) {
 			// oracle (C02_continued_selector_complete): on a partition in time order, outside the window of the recorded
 			// finding (f), the window the kept selector answers with contains every position of the chunk whose timestamp
 			// is in its range - also when the index was rebuilt, synchronised or reloaded since the window was computed
-			if sortedAll && !pendingDropWrite && !staleRoots && len(ws) == len(e.cids) {
+			if sortedAll && len(ws) == len(e.cids) {
 				for k, w := range ws {
 					for i, ts := range chunkData(k + 1) {
 						if ts < e.selRange[0] || ts > e.selRange[1] {
@@ -1537,7 +1572,7 @@ func runE2E(rp Replay) (*Case, error) {
 			// oracle: everything the continued cursor has delivered so far = the unbounded read filtered by the range
 			// (on a partition stored in time order and outside the window of the recorded finding (f), where a fresh RANGE
 			// read is complete)
-			if sortedAll && !pendingDropWrite {
+			if sortedAll {
 				full, err := e.query("SELECT FROM " + e2eTags)
 				if err != nil {
 					return nil, err
